@@ -395,6 +395,9 @@ class CatalogWriter(AbstractContextManager, HandlesDataChunk):
         buffersize:
             Optional, maximum number of records to store in the internal cache
             of each patch writer.
+        num_expect:
+            Optional, the number of patches that must receive data (patch IDs
+            ``0`` to ``num_expect - 1``), checked when finalising.
 
     Attributes:
         cache_directory:
@@ -416,6 +419,7 @@ class CatalogWriter(AbstractContextManager, HandlesDataChunk):
         "cache_directory",
         "buffersize",
         "writers",
+        "num_expect",
     )
 
     def __init__(
@@ -425,8 +429,10 @@ class CatalogWriter(AbstractContextManager, HandlesDataChunk):
         chunk_info: DataChunkInfo,
         overwrite: bool = True,
         buffersize: int = -1,
+        num_expect: int | None = None,
     ) -> None:
         self._chunk_info = chunk_info
+        self.num_expect = num_expect
         self.cache_directory = Path(cache_directory)
         cache_exists = self.cache_directory.exists()
 
@@ -513,13 +519,13 @@ class CatalogWriter(AbstractContextManager, HandlesDataChunk):
             ValueError:
                 If any of the patches does not contain any data.
         """
-        empty_patches = set()
+        empty_patches = set(range(self.num_expect or 0)) - self.writers.keys()
         for patch_id, writer in self.writers.items():
             writer.close()
             if writer.num_processed == 0:
                 empty_patches.add(patch_id)
 
-        for patch_id in empty_patches:
+        for patch_id in sorted(empty_patches):
             raise ValueError(f"patch with ID {patch_id} contains no data")
 
         patch_ids = np.fromiter(self.writers.keys(), dtype=np.int16)
@@ -573,6 +579,7 @@ def write_patches_unthreaded(
             chunk_info=reader.copy_chunk_info(drop_patch_ids=True),
             overwrite=overwrite,
             buffersize=buffersize,
+            num_expect=None if patch_centers is None else len(patch_centers),
         ) as writer:
             chunk_iter = Indicator(reader) if progress else iter(reader)
             for chunk in chunk_iter:
@@ -654,6 +661,7 @@ if parallel.use_mpi():
         chunk_info: DataChunkInfo,
         overwrite: bool = True,
         buffersize: int = -1,
+        num_expect: int | None = None,
     ) -> None:
         """A dedicated writer process that recieves a dictionary with patch IDs
         and patch data to write using a :obj:`CatalogWriter`, terminated when
@@ -664,6 +672,7 @@ if parallel.use_mpi():
             chunk_info=chunk_info,
             overwrite=overwrite,
             buffersize=buffersize,
+            num_expect=num_expect,
         ) as writer:
             while (patches := recv(source=MPI.ANY_SOURCE, tag=1)) is not EndOfQueue:
                 writer.process_patches(patches)
@@ -732,6 +741,7 @@ if parallel.use_mpi():
                 chunk_info=reader.copy_chunk_info(drop_patch_ids=True),
                 overwrite=overwrite,
                 buffersize=buffersize,
+                num_expect=None if patch_centers is None else len(patch_centers),
             )
 
         elif rank in worker_config.active_ranks:
@@ -798,6 +808,7 @@ else:
         chunk_info: DataChunkInfo = field(kw_only=True)
         overwrite: bool = field(default=True, kw_only=True)
         buffersize: int = field(default=-1, kw_only=True)
+        num_expect: int | None = field(default=None, kw_only=True)
 
         def __post_init__(self) -> None:
             self.process = multiprocessing.Process(target=self.task)
@@ -820,6 +831,7 @@ else:
                     overwrite=self.overwrite,
                     chunk_info=self.chunk_info,
                     buffersize=self.buffersize,
+                    num_expect=self.num_expect,
                 ) as writer:
                     while (patches := self.patch_queue.get()) is not EndOfQueue:
                         if patches is AbortQueue:
@@ -910,6 +922,7 @@ else:
                 chunk_info=reader.copy_chunk_info(drop_patch_ids=True),
                 overwrite=overwrite,
                 buffersize=buffersize,
+                num_expect=None if patch_centers is None else len(patch_centers),
             ):
                 chunk_iter = Indicator(reader) if progress else iter(reader)
                 for chunk in chunk_iter:
